@@ -8,9 +8,13 @@ use serde::Serialize;
 use snafu::{ensure, ResultExt};
 use std::io::ErrorKind;
 use std::path::{Path, PathBuf};
+use std::sync::atomic::{AtomicU64, Ordering};
 use std::sync::Arc;
 use tempfile::TempDir;
 use tokio::sync::{Mutex, RwLock, RwLockReadGuard, RwLockWriteGuard};
+
+/// Makes the names of temporary files unique within this process.
+static TMP_FILE_COUNTER: AtomicU64 = AtomicU64::new(0);
 
 /// `Datastore` persists TUF metadata files.
 #[derive(Debug, Clone)]
@@ -64,7 +68,21 @@ impl Datastore {
             what: format!("{file} in datastore"),
             path: path.clone(),
         })?;
-        tokio::fs::write(&path, bytes)
+        // Write to a temporary file next to the destination and rename it into place, so that an
+        // interrupted or failed write never leaves a truncated file where a complete one was (the
+        // stored metadata is what protects against rollback).
+        // (The temporary name is short and does not derive from `file`, which may already be as
+        // long as a file name can be.)
+        let tmp_path = lock.path().join(format!(
+            ".tmp.{}.{}",
+            std::process::id(),
+            TMP_FILE_COUNTER.fetch_add(1, Ordering::Relaxed)
+        ));
+        if let Err(err) = tokio::fs::write(&tmp_path, bytes).await {
+            let _ = tokio::fs::remove_file(&tmp_path).await;
+            return Err(err).context(error::DatastoreCreateSnafu { path: &tmp_path });
+        }
+        tokio::fs::rename(&tmp_path, &path)
             .await
             .context(error::DatastoreCreateSnafu { path: &path })
     }
